@@ -486,6 +486,26 @@ func vfGenC06(rt *rapid.T) vfC06Case {
 			g := vfTrig{Mode: rapid.SampledFrom([]string{"S", "R", "D"}).Draw(rt, "mode"), Version: "1.1.8", ID: id, Port: "12345"}
 			st.Chunk = append(append(vfGenPrefix(rt), g.text()...), vfGenSuffix(rt)...)
 			st.Class = "repeat"
+		case kind == 5 && rapid.IntRange(0, 2).Draw(rt, "scrollback_edge") == 0:
+			// scroll-back whose transfer-ending word begins right at the edge of the look-behind window: 39, 40, 41 ... bytes after
+			// the start of the trigger (a trigger without a port is 38 bytes long: the config line follows directly after CR LF)
+			g := vfGenTrig(rt, freshID)
+			if len(g.ID) < 13 {
+				g.ID = freshID()
+			}
+			if rapid.Bool().Draw(rt, "edge_noport") {
+				g.Port = ""
+			}
+			trig := g.text()
+			at := rapid.SampledFrom([]int{38, 39, 40, 40, 41, 42, 45}).Draw(rt, "edge_at")
+			// every server ends its trigger line with CR LF, so the nearest a word can begin is two bytes behind the trigger
+			fill := "\r\n"
+			if pad := at - len(trig); pad > 2 {
+				fill += strings.Repeat(" ", pad-2)
+			}
+			word := rapid.SampledFrom([]string{"#CFG:eJyrVspJzEtXslJQKqhU0lFQSipNK86sSgUKGBoYGOgoKJVkluSmKlkpGBoZ1wIAKlwNGw==\n", "Saved 1 file\r\n", "Stopped\r\n", "Cancelled\r\n", "Interrupted\r\n"}).Draw(rt, "edge_word")
+			st.Chunk = []byte("\x1b7\x07" + trig + fill + word)
+			st.Class = "scrollback"
 		case kind == 5: // scroll-back of a finished transfer, as the current servers print it
 			g := vfGenTrig(rt, freshID)
 			if len(g.ID) < 13 {
